@@ -132,12 +132,15 @@ class BDSKModel(CallableModel):
         optionals['origin_is_root_edge'] = data.get('origin_is_root_edge', False)
         if 'times' in data:
             if isinstance(data['times'], list):
-                optionals['times'] = Parameter(None, data['times'])
+                optionals['times'] = Parameter(None, torch.tensor(data['times']))
             else:
                 optionals['times'] = process_object(data['times'], dic)
         optionals['survival'] = data.get('survival', True)
         optionals['relative_times'] = data.get('relative_times', False)
-        optionals['removal_probability'] = data.get('relative_times', None)
+        if 'removal_probability' in data:
+            optionals['removal_probability'] = process_object(
+                data['removal_probability'], dic
+            )
 
         return cls(id_, tree, R, delta, s, **optionals)
 
